@@ -149,11 +149,14 @@ class Builder:
             return self.json("u32", t, model)
         if self.schema.lookup(ty) is not None:
             if not self.schema.lookup(ty):
-                return None  # unit struct
+                return None if name in self.schema.unit_structs else {}  # unit struct -> null, `struct X {}` -> {}
             out = {}
             t = t or {}
             for f in self.schema.lookup(ty):
                 if f.skip:
+                    continue
+                if f.name not in t and last_seg(f.ty).endswith("HistoryVec") and self.schema.lookup(f.ty):
+                    out[f.json_name] = {hf.json_name: [] for hf in self.schema.lookup(f.ty)}
                     continue
                 if f.name in t:
                     if isinstance(t[f.name], Raw) and not t[f.name].has_json:
